@@ -338,12 +338,12 @@ class GuardStates:
         """a true conjunction / false disjunction holds part by part: separate facts, so that a store to one operand's
         variable does not lose what is known about the others (`if not ready and m.is_logger: ...; ready = True`)"""
         if isinstance(cond, ast.BoolOp) and ((isinstance(cond.op, ast.And) and pol) or (isinstance(cond.op, ast.Or) and not pol)):
-            out: List[Fact] = [self._fact(cond, pol)]
+            out: List[Fact] = []  # the parts imply the whole: keeping only them keeps the number of atoms down
             for v in cond.values:
                 out.extend(self._split_cond(v, pol))
             return out
         if isinstance(cond, ast.UnaryOp) and isinstance(cond.op, ast.Not):
-            return [self._fact(cond, pol)] + self._split_cond(cond.operand, not pol)
+            return self._split_cond(cond.operand, not pol)
         return [self._fact(cond, pol)]
 
     def _tracked(self, cond: ast.expr) -> bool:
